@@ -112,11 +112,16 @@ CONFIG = {
         "structure Reader); C05_reprint_fixed takes 'the reader finds the elements where the printer put them' (relaidFile) as "
         "an explicit hypothesis; C05_reparse proves it (parse (print d) = reading, relaid, print reading = print d) for the "
         "grammar MODEL and the shape SimpleFile (package, imports, messages, nested messages, enums, real oneofs, fields incl. "
-        "map fields, enum values, services with methods; elements with or without source lines, no comments; fields with "
+        "map fields, enum values, services with methods; elements with or without source lines; LEADING COMMENTS on every "
+        "kind of element (the // lines are attributed by the model of protocompile's attributeComments; certificate per comment, "
+        "evaluated by the checker: the text ends with a line break and no line holds one); fields with "
         "bracket options and custom json_name — for these the scanner / option parser facts are evaluated per field by the "
         "checker (OptField) and carried to the printed position by the shift / frame lemmas of ReparseOpts.lean; statement "
         "options of messages, enums, services and methods likewise (BlockOpts / RpcOpts)); for files with options on files / oneofs / "
-        "enum values, comments or extend blocks the reading is validated by print.file only. Which generated "
+        "enum values, detached / trailing comments or extend blocks the reading is validated by print.file only; for those of "
+        "them without detached / trailing comments and located options the layout half (second print = first print) still "
+        "follows from the theorem C05_reprint_checked, whose two decidable hypotheses the driver evaluates per op on the "
+        "model's own reading (coverage.reprint_theorem_*). Which generated "
         "files are inside the shape is decided per print.file op by Cover.simpleFileB (proved sound: simpleFileB_sound) and "
         "reported under coverage.reparse_theorem_* (fraction, per origin, reasons for being outside)",
         "float option values (strconv.FormatFloat) and enum value names are opaque texts produced by Go (oracle)",
